@@ -43,14 +43,12 @@ theorem geomSends_bary (r : Nat) (dr : DonorR α) :
         simp only [geomSends.go] at h
         split at h
         · split at h
+          · rename_i c wts _
+            obtain ⟨l', hl', rfl⟩ := map_eq_ok.mp h
+            rcases List.mem_cons.mp hx with rfl | hx'
+            · exact ⟨wts, rfl⟩
+            · exact ih ps bs l' hl' x hx'
           · cases h
-          · split at h
-            · rename_i c wts _
-              obtain ⟨l', hl', rfl⟩ := map_eq_ok.mp h
-              rcases List.mem_cons.mp hx with rfl | hx'
-              · exact ⟨wts, rfl⟩
-              · exact ih ps bs l' hl' x hx'
-            · cases h
         · exact ih ps bs l h x hx
 
 theorem treeSends_bary (r : Nat) (dr : DonorR α) :
